@@ -34,3 +34,10 @@ int memcmp(const void * a, const void * b, size_t n) {
     }
     return r;
 }
+size_t nondet_size_t(void);
+/* strlen: the index of the first NUL: s[n] == 0 and no NUL before it (at the arbitrary witness index) */
+size_t strlen(const char * s) {
+    size_t n = nondet_size_t();
+    __CPROVER_assume(n < (1ull << 31) && __CPROVER_r_ok(s, n + 1) && s[n] == 0 && (vg_mem_i >= n || s[vg_mem_i] != 0));
+    return n;
+}
